@@ -235,6 +235,7 @@ func run(c *mc.Ctx) {
 
 	// (4) documented panics for widths outside the documented set (complete small domain 0..16)
 	mutateThenRecode(c)
+	decodeThenRecode(c)
 	c.Par("widths", 17, func(w *mc.W, i int) {
 		wd := uint(i)
 		s := sc(big.NewInt(12345))
